@@ -182,13 +182,16 @@ def bounds(tier, seed):
     t = int(seed) % 3
     if tier == 'quick':
         return {'grids_2d': '{1..4}x{1..4}', 'grids_3d': '{1..3}^3', 'nsampling': {'2d': [3], '3d': [5, 9]},
-                'parameters': {k: PARS[k] for k in PAR_TABLES[t]}, 'all_binary_fields_up_to_nel': 9,
+                'parameters': {k: PARS[k] for k in PAR_TABLES[t]}, 'all_binary_fields_up_to_nel': {'2d': 9, '3d': 8},
+                'covariance_maps': 'all mirrors and swaps at the first parameter triple (every nsampling) and for '
+                                   'the grey tables at every triple',
                 'larger_grids_binary_with_at_most_m_solid_or_void': 1, 'grey_tables': [t],
                 'grey_fields_per_table': len(GREY_NAMES), 'directions': 'all 4 (2-D) / 6 (3-D)',
                 'direction_forms': 'unit 3-vector + 3..5 vector variants + 4..6 string spellings'}
     return {'grids_2d': '{1..4}x{1..4}', 'grids_3d': '{1..3}^3', 'nsampling': {'2d': [3], '3d': [5, 9]},
             'parameters_binary_families': {k: PARS[k] for k in PAR_TABLES[t]},
-            'parameters_grey_families': PARS, 'all_binary_fields_up_to_nel': 12,
+            'parameters_grey_families': PARS, 'all_binary_fields_up_to_nel': {'2d': 12, '3d': 12},
+            'covariance_maps': 'all mirrors and swaps at every point',
             'larger_grids_binary_with_at_most_m_solid_or_void': 2, 'grey_tables': [0, 1, 2],
             'grey_fields_per_table': len(GREY_NAMES), 'directions': 'all 4 (2-D) / 6 (3-D)',
             'direction_forms': 'unit 3-vector + 3..5 vector variants + 4..6 string spellings'}
@@ -197,7 +200,7 @@ def bounds(tier, seed):
 def generate(tier, seed):
     t = int(seed) % 3
     quick = tier == 'quick'
-    nbin = 9 if quick else 12
+    nbin2, nbin3 = (9, 8) if quick else (12, 12)
     m = 1 if quick else 2
     pars_bin = PAR_TABLES[t]
     pars_grey = pars_bin if quick else sorted(PARS)
@@ -221,12 +224,13 @@ def generate(tier, seed):
                     if par not in pars_bin:
                         continue
                     forms = 'all' if (ins == 0 and par == pars_bin[0]) else 'none'
-                    if nel <= nbin:
+                    maps = 'all' if (not quick or par == pars_bin[0]) else 'none'
+                    if nel <= (nbin2 if dim == 2 else nbin3):
                         fam, extra, n = 'bin', {}, 2 ** nel
                     else:
                         fam, extra, n = 'few', {'m': m}, family_size('few', nel, m)
                     for s in range(0, n, CHUNK):
-                        yield dict(base, fam=fam, chunk=[s, min(CHUNK, n - s)], forms=forms, maps='all', **extra)
+                        yield dict(base, fam=fam, chunk=[s, min(CHUNK, n - s)], forms=forms, maps=maps, **extra)
 
 
 # ------------------------------------------------------------------ execution --------------------------------------
